@@ -98,6 +98,7 @@ class Program:
     def build(self):
         """spec["mode"]: plain (default) | variant | mixin | method
         variant: methods[:split] on a base function, the rest on base.copy()
+        linkback: methods[:split] on a base function, base.copy(linkback=True) compiled, the rest on the base
         mixin:   methods[:split] and methods[split:] on two functions combined with Ovld(mixins=[a, b])
         method:  every method takes self; the function is a class attribute and is called on an instance"""
         mode = self.spec.get("mode", "plain")
@@ -114,6 +115,16 @@ class Program:
             self.ov = base.copy()
             for m in self.methods[split:]:
                 self.ov.register(self.make(m), priority=m.get("prio", 0))
+        elif mode == "linkback":
+            # a linkback copy that is built and used first; its parent (never used itself) gets the rest afterwards
+            base = Ovld()
+            for m in self.methods[:split]:
+                base.register(self.make(m), priority=m.get("prio", 0))
+            self.base = base
+            self.ov = base.copy(linkback=True)
+            self.ov.compile()
+            for m in self.methods[split:]:
+                base.register(self.make(m), priority=m.get("prio", 0))
         elif mode == "mixin":
             a, b = Ovld(), Ovld()
             for m in self.methods[:split]:
